@@ -13,6 +13,12 @@ def run(chk):
     for name, hyps, goal in lem:
         chk.prove("lemma:" + name, hyps, goal)
     chk.cover("merge clauses", hm)
+    from ..lemmas_log import lemmas_merge_log
+
+    for ceil, tag in ((65535, "log16"), (255, "log8")):
+        for name, hyps, goal in lemmas_merge_log(ceil, tag):
+            if ":c09:" in name:
+                chk.prove("lemma:" + name, hyps, goal)
     _cm.crosscheck_linear(chk)
     quick = chk.tier == "quick"
     cases, fails, first = _log.merge_standin(chk, quick)
@@ -26,7 +32,7 @@ def run(chk):
         if b:
             chk.violation("countmin:runtime:contracts", {"verdict": "runtime contract check failed"}, b)
     chk.bounded_standin("merge contract clauses evaluated on random executions", "%d runs" % (c1 + c2), c1 + c2, int(bool(bad)) + int(bool(bad2)))
-    chk.notes.append("log merges: the reserved-range (exact sum) and saturation (sum >= max_count) clauses, counters, frame and row-disjoint parallel writes are proved over reals; the rounding branch ('nearest decoded counter') is outside the solver's reach (ln/pow, floor) and is covered only by the bounded float stand-in.")
+    chk.notes.append("log merges: the complete cell relation is proved over reals from the typed IR - exact sum in the reserved range, the maximum counter once the sum reaches max_count, and in between the counter nearest to the sum among the two consecutive counters that bracket it (witness floor(log_base((v-nr)(base-1)+1)) + nr, ties down); ln / pow are uninterpreted and only instances of their laws at the current cell's terms are assumed. A step-by-step proof script inside the inner loop invariant (range of the log argument, bracket, locals clower / vlower / vhigher equal the spec terms, cell relation) keeps each query small. Float rounding (as opposed to real arithmetic) is covered only by the bounded float stand-in.")
     chk.assumptions.add("float64 treated as real in _merge_log16/_merge_log8/_counter2value; float side conditions (log argument > 0, float->int in range) not checked")
     chk.assumptions.add("operands of merge do not alias")
 
